@@ -421,6 +421,14 @@ class Interp:
                 e.lineno = getattr(s, "lineno", None)
                 e.where = frame.func.qualname if frame.func else frame.module.name
             raise
+        except (AttributeError, TypeError, KeyError, IndexError, ValueError, AssertionError, NotImplementedError) as e:
+            # an internal error of the ENGINE while interpreting repository code is a limit of the verified subset
+            # (verdict: undecided), never a verdict about the code and never silently skipped
+            import traceback
+            tb = traceback.extract_tb(e.__traceback__)
+            where = "%s:%s" % (tb[-1].filename.rsplit("/", 1)[-1], tb[-1].lineno) if tb else "?"
+            raise Unsupported("engine limitation (%s: %s at %s) while executing line %s of %s" % (
+                type(e).__name__, e, where, getattr(s, "lineno", "?"), frame.func.qualname if frame.func else frame.module.name))
 
     def st_Pass(self, s, f):
         pass
@@ -1278,9 +1286,14 @@ class SetVal:
         core.CUR.declare("set_iteration_order", "choice", k)
         return list(perms[k])
 
-    def union(self, o):
+    def union(self, o, interp=None):
         s = SetVal(self.items)
-        s.items = self.items + [x for x in o.items if not any(x is y for y in self.items)]
+        others = o.items if isinstance(o, SetVal) else list(interp.iterate(o)) if interp is not None else list(o)
+        if interp is not None:
+            for x in others:
+                s.add(interp, x)
+        else:
+            s.items = self.items + [x for x in others if not any(x is y for y in self.items)]
         return s
 
 
